@@ -39,6 +39,7 @@ type Rec struct {
 	CPU      float64         `json:"cpu_s,omitempty"`
 	Msg      string          `json:"msg,omitempty"`
 	Seq      int             `json:"seq,omitempty"`
+	Ms       int64           `json:"ms,omitempty"`
 }
 
 // ChildOpts are the options of a child process.
@@ -286,6 +287,7 @@ func (c *Ctx) Unit(name string, f func()) {
 	c.inUnit = true
 	c.write(Rec{T: "begin", Unit: name, Seq: seq})
 	c.flush()
+	t0 := time.Now()
 	ok := func() (ok bool) {
 		defer func() {
 			if r := recover(); r != nil {
@@ -303,7 +305,7 @@ func (c *Ctx) Unit(name string, f func()) {
 	}()
 	_ = ok
 	c.writeCum()
-	c.write(Rec{T: "end", Unit: name, Seq: seq})
+	c.write(Rec{T: "end", Unit: name, Seq: seq, Ms: time.Since(t0).Milliseconds()})
 	c.flush()
 	c.inUnit = false
 }
